@@ -54,18 +54,39 @@ func swap_BANG(ctx context.Context, a ...MalType) (MalType, error) {
 	if !Q[*Atom](a[0]) {
 		return nil, errors.New("swap! called with non-atom")
 	}
-	atm := a[0].(*Atom)
-	atm.Mutex.Lock()
-	defer atm.Mutex.Unlock()
-	args := []MalType{atm.Val}
-	f := a[1]
-	args = append(args, a[2:]...)
-	res, e := Apply(ctx, f, args)
-	if e != nil {
-		return nil, e
+	if len(a) < 2 {
+		return nil, errors.New("swap! requires an atom and a function")
 	}
-	atm.Set(res)
-	return res, nil
+	atm := a[0].(*Atom)
+	f := a[1]
+	// The update function runs without holding the atom's lock (it may read this
+	// atom or swap others); the result is installed only if no other update got in
+	// between, otherwise the function is applied again to the new value (as in Clojure).
+	for {
+		atm.Mutex.RLock()
+		old, version := atm.Val, atm.version
+		atm.Mutex.RUnlock()
+		args := []MalType{old}
+		args = append(args, a[2:]...)
+		res, e := Apply(ctx, f, args)
+		if e != nil {
+			return nil, e
+		}
+		atm.Mutex.Lock()
+		if atm.version == version {
+			atm.Set(res)
+			atm.Mutex.Unlock()
+			return res, nil
+		}
+		atm.Mutex.Unlock()
+		if ctx != nil {
+			select {
+			case <-ctx.Done():
+				return nil, errors.New("timeout while swapping atom")
+			default:
+			}
+		}
+	}
 }
 
 // Atoms
@@ -74,14 +95,18 @@ type Atom struct {
 	Val    MalType
 	Meta   MalType
 	Cursor *Position
+
+	version uint64 // number of values installed so far; guarded by Mutex
 }
 
 func (a *Atom) Type() string {
 	return "atom"
 }
 
+// Set installs a new value; the caller holds Mutex.
 func (a *Atom) Set(val MalType) MalType {
 	a.Val = val
+	a.version++
 	return a
 }
 
@@ -92,7 +117,10 @@ func (a *Atom) Deref(_ context.Context) (MalType, error) {
 }
 
 func (a *Atom) LispPrint(pr_str func(MalType, bool) string) string {
-	return "«atom " + pr_str(a.Val, true) + "»"
+	a.Mutex.RLock()
+	val := a.Val
+	a.Mutex.RUnlock()
+	return "«atom " + pr_str(val, true) + "»"
 }
 
 // Future
